@@ -78,6 +78,8 @@ func run(in string) string {
 		r = runManager(f)
 	case "N":
 		r = runFromParameters(f)
+	case "U":
+		r = runUnserializable(f)
 	case "GENFAIL":
 		r = "genfail|chk=" + f[1]
 	default:
@@ -133,6 +135,8 @@ func class(in, obs string) string {
 		return "P/" + f[1] + "/" + msgNameOfURL(f[2])[len("google.crypto.tink."):] + "/p" + f[3] + "/" + fmt.Sprint(len(f[4])/16) + "/" + res
 	case "W":
 		return "W/" + f[1] + "/" + f[2][len("google.crypto.tink."):] + "/" + res
+	case "U":
+		return "U/" + f[1] + "/" + f[2]
 	case "H", "M", "N":
 		n := len(strings.Split(f[7], ";"))
 		fam := ""
